@@ -88,6 +88,12 @@ class BoundModel:
 
 
 @dataclass
+class SuperRef:
+    obj: object
+    cls: ClassInfo
+
+
+@dataclass
 class ModuleRef:
     mi: ModuleInfo
 
@@ -253,7 +259,7 @@ class Interp:
             elif i >= n_nodef:
                 env[p.arg] = self.eval(defaults[i - n_nodef], {}, mi)
             else:
-                raise AnalysisError(f'missing argument {p.arg} calling {fi.fq}')
+                raise RaiseSignal('TypeError', node, f'{fi.file}:{fi.qualname}: missing argument {p.arg}')
         if len(args) > len(pos):
             if a.vararg:
                 env[a.vararg.arg] = tuple(args[len(pos):])
@@ -267,11 +273,11 @@ class Interp:
             elif d is not None:
                 env[p.arg] = self.eval(d, {}, mi)
             else:
-                raise AnalysisError(f'missing keyword argument {p.arg} calling {fi.fq}')
+                raise RaiseSignal('TypeError', node, f'{fi.file}:{fi.qualname}: missing keyword argument {p.arg}')
         if a.kwarg:
             env[a.kwarg.arg] = dict(kwargs)
         elif kwargs:
-            raise AnalysisError(f'unexpected keyword arguments {list(kwargs)} calling {fi.fq}')
+            raise RaiseSignal('TypeError', node, f'{fi.file}:{fi.qualname}: unexpected keyword arguments {list(kwargs)}')
         self.depth += 1
         self.call_stack.append(fi)
         try:
@@ -658,6 +664,19 @@ class Interp:
                 if isinstance(st, ast.Assign) and any(isinstance(t, ast.Name) and t.id == attr for t in st.targets):
                     return self.eval(st.value, {}, self.repo.module(obj.ci.module))
             raise AnalysisError(f'unknown class attribute {obj.ci.name}.{attr} at {self.where(node)}')
+        if isinstance(obj, SuperRef):
+            cmi = self.repo.module(obj.cls.module)
+            for b in obj.cls.bases:
+                b = b.split('[')[0]
+                base = cmi.classes.get(b)
+                if base is None and b in cmi.imports and cmi.imports[b][0] == 'rel':
+                    r = self.repo.resolve_rel(cmi.imports[b][1], cmi.imports[b][2])
+                    base = r[1] if r and r[0] == 'class' else None
+                if base is not None:
+                    m = self.find_method(base, attr)
+                    if m is not None:
+                        return FuncRef(m, bound=obj.obj)
+            return Opaque(f'super().{attr}')
         if isinstance(obj, Opaque):
             return Opaque(f'{obj.why}.{attr}')
         if isinstance(obj, Unit | BoundModel):
@@ -693,6 +712,12 @@ class Interp:
         return None
 
     def ex_Call(self, e, env, mi):
+        if isinstance(e.func, ast.Name) and e.func.id == 'super' and not e.args and self.call_stack:
+            fi = self.call_stack[-1]
+            a = fi.node.args
+            first = (a.posonlyargs + a.args)[0].arg if (a.posonlyargs + a.args) else None
+            if fi.cls is not None and first in env:
+                return SuperRef(env[first], fi.cls)
         fn = self.eval(e.func, env, mi)
         args = []
         for a in e.args:
@@ -735,6 +760,10 @@ class Interp:
                 lenv[p.arg] = a
             lenv.update(kwargs)
             return self.eval(fn.node.body, lenv, fn.mi)
+        if isinstance(fn, SObj):
+            m = self.find_method(fn.cls, '__call__')
+            if m is not None:
+                return self.call_function(m, args, kwargs, bound=fn)
         if isinstance(fn, Opaque):
             for a in list(args) + list(kwargs.values()):
                 if isinstance(a, SVar) and a.origin is not None:
